@@ -305,6 +305,14 @@ def oracle_observers(scn, res):
                     v.append((ci, "observer/listing-text-differs", "observer %d: %s vs returned %s" % (o, sq[ls[0]][2:42], text[:40])))
                 elif len(rs) >= 2 and not (rs[-2] < ls[0] < rs[-1]):
                     v.append((ci, "observer/listing-text-out-of-order", "positions: replies %s, listing %s" % (rs, ls)))
+        # a command given to a client whose connection is closed: it is reported (before the write), then the write fails
+        if call[0] == "S" and e.get("throws") and e.get("cmds") == [] and a["out"].startswith("throw") and a["open"] == 0:
+            line = call[1] + (b" " + call[2] if call[2] is not None else b"")
+            for o, sq in zip(ids, seqs):
+                k = registered.count(o)
+                if list(sq) != ["q:" + (line.hex() or "-")] * k:
+                    v.append((ci, "observer/command-not-reported-before-the-write",
+                              "observer %d was told %s of %r on a closed connection" % (o, [x[:24] for x in sq[:3]] or "nothing", line)))
         # registration order at every event: the global log interleaves observers in registration order
         order = [int(t.split(":")[0][1:]) for t in ev if t.startswith("O")]
         n = len(registered)
@@ -618,7 +626,14 @@ def fam_observers(rng, n, dist):
             b.simple(rng.choice([b"PWD", b"NOOP"]), None, 421, multi=rng.random() < 0.4)
             dist.add("observer:421")
         elif r < 0.65 and b.connected:
-            b.disconnect(True)
+            b.disconnect(rng.random() < 0.7)
+        if not b.connected and rng.random() < 0.7:
+            # commands given to a client that is no longer connected: the observers are told of the command (it is reported
+            # BEFORE it is written), then the write fails
+            for _ in range(rng.randrange(1, 3)):
+                verb = rng.choice([b"NOOP", b"PWD", b"SYST"])
+                b.failing(("S", verb, None), cmds=[])
+            dist.add("observer:command-on-a-closed-connection")
         out.append(b.scenario())
     return out
 
@@ -822,6 +837,34 @@ def fam_faults(rng, n, dist, thorough=False):
     return out
 
 
+def fam_typefault(rng, n, dist):
+    """set_transfer_type whose TYPE exchange ends without a reply (the server closes, resets, or sends something that is no
+    reply): no positive acknowledgement - the type the client reports, converts by and sends at the next login is the old one"""
+    out = []
+    for i in range(n):
+        old_t = "IA"[i % 2]
+        new_t = "A" if old_t == "I" else "I"
+        b = S.Builder(rng, *rng.choice(ALL_METHODS), type=old_t)
+        b.connect(login=(b"u", b"p"))
+        if rng.random() < 0.5:
+            b.set_type(new_t, 504)                  # refused first: nothing changes either
+        how = rng.choice(["close", "reset", "garbage", "partial-code", "no-code"])
+        item = {"close": [], "reset": [], "garbage": [("G", b"\x00\xffnot a reply\r\n")], "partial-code": [("G", b"20")],
+                "no-code": [("G", b"ok then\r\n")]}[how]
+        b.cur.append(P.reaction(item, close_after=True, reset_after=(how == "reset")))
+        b.add_call(("T", new_t), cmds=[b"TYPE " + new_t.encode()], replies=[], throws=True, type_after=old_t, check_open=False)
+        b.connected = False
+        b.disconnect(False)
+        b.exp[-1]["may_throw"] = True
+        # a new session with the same client object: its login sends TYPE for the type that was never changed
+        b.connect(login=(b"u2", b"p2"))
+        add_simple(b, rng, 200)
+        b.disconnect(True)
+        dist.add("typefault:%s:%s->%s" % (how, old_t, new_t))
+        out.append(b.scenario())
+    return out
+
+
 def fam_uploads(rng, n, dist, thorough=False):
     out = []
     sizes = [0, 1, 8191, 8192, 8193, 16383, 16384, 16385, 20000] + ([100000, 1 << 20] if thorough else [])
@@ -894,6 +937,10 @@ def fam_refusals(rng, n, dist):
         else:
             b.transfer(kind, b"x", payload_segs=[b"data"], cb=cb if kind == "D" else None, refuse_at=at, refuse_code=code)
         dist.add("refusal:%s:%s:%s%s:%d" % (kind, at, mode, "-rfc2428" if rfc else "", code))
+        if at == "cmd" and mode == "P" and b.cur and b.cur[-1].get("data") and rng.random() < 0.5:
+            # the server drops its end of the data connection (abortively) before it sends the refusal
+            b.cur[-1]["data"]["reset_first"] = True
+            dist.add("refusal:data-connection-reset-by-the-server-first")
         add_simple(b, rng, 200)
         add_transfer(b, rng, dist, kind=rng.choice(["D", "U", "F"]))
         b.disconnect(True)
@@ -1167,6 +1214,17 @@ def fam_reuse(rng, n, dist):
                     b.transfer("U", b"big.bin", chunks=big * 3, cb=[False, False] + [True] * 6, abor=dict(first=426, second=226))
                 dist.add("reuse:cancelled-transfer-in-the-middle")
             add_transfer(b, rng, dist, kind=rng.choice(["D", "U", "F"]))
+        if rng.random() < 0.25:
+            # "the same context, and therefore the same certificate verification settings": somebody else answers at the data
+            # port - cannot resume the offered session, presents a certificate the context does not trust; the transfer must
+            # fail whether or not a session was offered
+            kind = rng.choice(["D", "U", "F"])
+            b.transfer(kind, b"f" if kind != "F" else None, payload_segs=[b"PAYLOAD-MARKER " * 20], chunks=[b"PAYLOAD-MARKER " * 20],
+                       data_fault="rogue-cert")
+            b.disconnect(False)
+            dist.add("reuse:rogue-certificate-at-the-data-port:resume-%s" % b.cfg["resume"])
+            out.append(b.scenario())
+            continue
         ending = rng.choice(["quit", "421", "quit", "421-then-connect", "connect-over"])
         if ending == "421":
             b.simple(b"NOOP", None, 421)
@@ -1244,6 +1302,18 @@ def oracle_reuse(scn, res):
     for si, log in enumerate(res["peer"]):
         k = 0
         for d in log["data"]:
+            spec = None
+            try:
+                spec = scn["sessions"][si]["reactions"][d["ri"]].get("data")
+            except (IndexError, KeyError, TypeError):
+                pass
+            if spec and spec.get("cert") == "rogue" and c["verify"] != "none":
+                if d.get("tls") is True:
+                    v.append((-1, "tls/data-connection-accepted-an-untrusted-certificate",
+                              "session %d: the data handshake with a peer whose certificate the context does not trust was completed "
+                              "(resumption %s)" % (si, "on" if c["resume"] else "off")))
+                k += 1
+                continue
             if d.get("tls") is not True:
                 if d.get("arrived"):
                     k += 1          # an attempted data handshake counts: under TLS 1.3 it has used up the ticket
@@ -1374,14 +1444,14 @@ FAMILIES = dict(mixed=lambda rng, n, dist, th: gen_mixed(rng, "quick", dist, n),
                 refusals=lambda r, n, d, th: fam_refusals(r, n, d), cancel=lambda r, n, d, th: fam_cancel(r, n, d),
                 args=lambda r, n, d, th: fam_args(r, n, d), tls=lambda r, n, d, th: fam_tls(r, n, d),
                 reconnect=lambda r, n, d, th: fam_reconnect(r, n, d), reuse=lambda r, n, d, th: fam_reuse(r, n, d),
-                dispatch=lambda r, n, d, th: fam_dispatch(r, n, d))
+                dispatch=lambda r, n, d, th: fam_dispatch(r, n, d), typefault=lambda r, n, d, th: fam_typefault(r, n, d))
 
 # ---------------------------------------------------------------------------------------------- the checks
 PROPS = {
     # id: families with their share of the scenario budget, correspondence projections, oracles
     "C02": dict(fam=[("mixed", 5), ("abor", 2), ("refusals", 1), ("tls", 1)], proj=["out", "state", "wire"], oracles=["lockstep"]),
     "C09": dict(fam=[("args", 4), ("mixed", 2), ("reconnect", 2)], proj=["out", "wire"], oracles=["commands"]),
-    "C10": dict(fam=[("mixed", 6), ("args", 1), ("refusals", 1), ("tls", 2)], proj=["out", "state", "wire"], oracles=["commands", "state"]),
+    "C10": dict(fam=[("mixed", 6), ("args", 1), ("refusals", 1), ("tls", 2), ("typefault", 1)], proj=["out", "state", "wire"], oracles=["commands", "state"]),
     "C14": dict(fam=[("observers", 5), ("mixed", 2)], proj=["out", "obs"], oracles=["observers", "terminates"], variant="asan"),
     "C03": dict(fam=[("downloads", 6), ("mixed", 1), ("ascii", 1)], proj=["out", "io"], oracles=["transfers"]),
     "C04": dict(fam=[("uploads", 6), ("mixed", 1), ("ascii", 1)], proj=["out", "io", "wire"], oracles=["transfers"]),
@@ -1446,10 +1516,13 @@ def check_into(rep, prop, tier, rng, module=None, merge=False):
     results = P.run_scenarios(scns, exe, drv, work, tier, env=env)
     # a scenario that disagrees or fails an oracle is run once more, alone: only what reproduces is reported
     # (the first run shares the machine with eleven other clients and peers; real sockets under load can time out)
+    known_sigs = set(k[0] for k in vlib.load_known(prop)[0])
+
     def is_bad(scn, res):
         if correspondence(scn, res, spec["proj"]):
             return True
-        return any(ORACLES[o](scn, res) for o in spec["oracles"])
+        # (a recorded finding is reported as such by the report; re-running its scenarios would only cost time)
+        return any(kind not in known_sigs for o in spec["oracles"] for _, kind, _ in ORACLES[o](scn, res))
     bad = [i for i in range(len(scns)) if is_bad(scns[i], results[i])]
     if bad:
         # (bounded: the shortest histories first, at most 24 of them, blocked ones last)
